@@ -8,6 +8,7 @@ from __future__ import annotations
 import hashlib
 import json
 import signal
+import time
 
 import numpy as np
 
@@ -116,6 +117,7 @@ class RunResult:
         self.forced = {}
         self.outcome_log = []
         self.harness_error = None
+        self.slowest = (0.0, "", [])
 
     def probe(self, name, n=1):
         self.probes[name] = self.probes.get(name, 0) + n
@@ -169,6 +171,7 @@ def execute_run(
             ctx["nondeg"] = 0
             seams.take_draws()
             signal.alarm(STEP_TIMEOUT_S)
+            _t0 = time.time()
             try:
                 res = actions.execute(world, pre, r)
             except StepTimeout:
@@ -178,6 +181,9 @@ def execute_run(
             finally:
                 signal.alarm(0)
             res.draws = seams.take_draws()
+            _dt = time.time() - _t0
+            if _dt > rr.slowest[0]:
+                rr.slowest = (_dt, json.dumps({k: v for k, v in r.items() if k != "client"}, default=str)[:200], [b.dims for b in pre.blocks if len(b.members) > 1])
             post = alpha.snapshot(world)
             rr.recipes.append(r)
             rr.steps += 1
